@@ -264,10 +264,6 @@ func tbC05(c *Ctx, env *TBEnv, nprogs int) {
 			}
 			if res.Final != "complete" {
 				class := res.Final
-				if last := res.Incs[len(res.Incs)-1].Output; strings.Contains(last, "is not a pipestance directory") {
-					// the first incarnation was killed before it had written _invocation
-					class += ":killed-during-creation"
-				}
 				r.violate(Violation{Kind: "property", Key: "C05:tierB-not-completed:" + class,
 					What:  "after interruption and restart the real mrp did not complete the pipestance",
 					Input: input, Impl: res.Incs[len(res.Incs)-1].Output + "\n--- unfinished job objects ---\n" + res.Stuck})
